@@ -33,6 +33,8 @@ def _t(v):
         return ("dict",) + tuple(sorted(((_t(k), _t(x)) for k, x in v.items()), key=repr))
     if t in (set, frozenset):
         return (t.__name__,) + tuple(sorted((_t(x) for x in v), key=repr))
+    if t.__name__ == "method":
+        return ("method", v.__func__.__qualname__, _t(getattr(v.__self__, "__dict__", None)))
     if isinstance(v, dict):          # instance of a dict subclass (OrderedDict: the order is part of the value)
         items = [(_t(k), _t(x)) for k, x in v.items()]
         return ("dict:" + t.__name__,) + tuple(items if t.__name__ == "OrderedDict" else sorted(items, key=repr))
